@@ -48,7 +48,8 @@ class EnumStats:
 
 
 def transform_counts(path_to_csv, label, column_name='count', full=False):
-    df = pd.read_csv(path_to_csv, sep='\t')
+    # feature ids are strings: "NA", "nan", "null" etc. are legal gene/transcript ids, not missing values
+    df = pd.read_csv(path_to_csv, sep='\t', dtype={'#feature_id': str}, keep_default_na=False, na_values=[''])
     df_features = df.copy() if full else df[:-3].copy()
     df_features.rename(columns={column_name: label}, inplace=True)
     return df_features
